@@ -8,6 +8,8 @@ Next == UNCHANGED c
 Emit == PrintT("@@CASE " \o ToJson([choice |-> c, schema |-> Valid(c),
                                     order |-> [i \in 1..Len(Valid(c).ents) |-> AttrOrder(Valid(c), Valid(c).ents[i].name)],
                                     files |-> Files(Valid(c)),
+                                    pymodule |-> PyModule(Valid(c)),
+                                    pydiamond |-> {Valid(c).ents[i].name : i \in {j \in 1..Len(Valid(c).ents) : Dev_PyCtorRepeatsSharedAncestor(Valid(c), Valid(c).ents[j].name)}},
                                     dict |-> Dictionary(Valid(c)),
                                     devtypes |-> {Valid(c).types[i].name : i \in {j \in 1..Len(Valid(c).types) :
                                                     Dev_RenamedEnumNotRegistered(Valid(c), Valid(c).types[j]) \/ Dev_NestedAggrNotRegistered(Valid(c), Valid(c).types[j])}},
